@@ -227,53 +227,131 @@ def check(run, F, tier):
 
     # ------------------------------------------------------------------ R2
     r2 = run.rule("C18-R2", "forbidden property values rejected by new() and parse() exactly as specified", floor=24, kind="E")
+    VBI = "mqtt::packet::variable_byte_integer::VariableByteInteger"
+    WIDTH = {"byte": 1, "u16": 2, "u32": 4}
+    r2inl = lambda ex, callee, info: (explore.default_inline(ex, callee, info) or explore.small_private_helper(callee, props_ok=True)
+                                      or callee.get("impl_self", "") == VBI)
+
+    def vbi_bytes(x):
+        out = []
+        while True:
+            b_ = x % 128
+            x //= 128
+            if x > 0:
+                b_ |= 128
+            out.append(b_)
+            if x == 0:
+                return out
+
+    def evaluate(path, setup):
+        """{'Ok'} / {'Err'} when the constructor's verdict on a concrete input is decided, anything else otherwise."""
+        exq = explore.Explorer(F, inline_pred=r2inl, loop_k=8)
+        res = set()
+        try:
+            for p in exq.run(path, setup=setup):
+                if p.kind == "return" and p.ret and p.ret[0] == "agg" and p.ret[1] == "std::result::Result":
+                    res.add(p.ret[2])
+                elif p.kind in ("return", "cut"):
+                    res.add("?")
+        except explore.ExploreError:
+            res.add("?")
+        return res
+
+    def atoms_verdict(path):
+        """Fallback when a constructor cannot be evaluated on concrete inputs: the forbidden-value tests among the
+        decision atoms of its accepting / rejecting paths."""
+        ex = explore.Explorer(F)
+        ps = ex.run(path)
+        interned = ex.interned_rev
+        sig = {"zero": {"err_true": False, "ok_false": True, "ok_n": 0}, "gt1": {"err_true": False, "ok_false": True, "ok_n": 0}}
+        has_ok = False
+        for p in ps:
+            if p.kind != "return" or not (p.ret and p.ret[0] == "agg" and p.ret[1] == "std::result::Result"):
+                continue
+            isok = p.ret[2] == "Ok"
+            has_ok |= isok
+            tests = {"zero": None, "gt1": None}
+            for k, c in p.cons.items():
+                if k[0] == "cmp" and c[0] == "eq":
+                    if k[1] == "Eq" and any(o[0] == "c" and o[1] == 0 for o in (k[2], k[3])) and not any("len" in repr(conn.expand_all(interned, o)) for o in (k[2], k[3])):
+                        tests["zero"] = (c[1] == 1)
+                    if k[1] == "Lt" and k[2][0] == "c" and k[2][1] == 1 and "len" not in repr(conn.expand_all(interned, k[3])):
+                        tests["gt1"] = (c[1] == 1)
+            for t in ("zero", "gt1"):
+                if not isok and tests[t] is True:
+                    sig[t]["err_true"] = True
+                if isok:
+                    sig[t]["ok_n"] += 1
+                    if tests[t] is not False:
+                        sig[t]["ok_false"] = False
+        return has_ok, {t for t in sig if sig[t]["err_true"] and sig[t]["ok_false"] and sig[t]["ok_n"] > 0}
+
+    n_conc = n_atoms = 0
     for v in allv:
         if v not in props or props[v]["type"] not in ("byte", "u16", "u32", "vbi"):
             continue
         want = spec["forbidden_values"].get(v)
+        pt = props[v]["type"]
+        if pt == "vbi":
+            probes = [0, 1, 127, 128, 16383, 16384, 268435455]
+            top = 268435455
+        else:
+            top = (1 << (8 * WIDTH[pt])) - 1
+            probes = [0, 1, 2, 3, top]
+        allowed = lambda x: not ((want == "zero" and x == 0) or (want == "gt1" and x > 1))
         for fn in ("new", "parse"):
             path = "mqtt::packet::property::%s::%s" % (v, fn)
-            if path not in F.fns:
-                r2.violation("%s::%s" % (v, fn), "constructor %s not found" % path)
-                continue
-            ex = explore.Explorer(F)
-            ps = ex.run(path)
-            interned = ex.interned_rev
-            sig = {"zero": {"err_true": False, "ok_false": True, "ok_n": 0}, "gt1": {"err_true": False, "ok_false": True, "ok_n": 0}}
-            has_ok = False
-            for p in ps:
-                if p.kind != "return" or not (p.ret and p.ret[0] == "agg" and p.ret[1] == "std::result::Result"):
-                    continue
-                isok = p.ret[2] == "Ok"
-                has_ok |= isok
-                tests = {"zero": None, "gt1": None}
-                for k, c in p.cons.items():
-                    if k[0] == "cmp" and c[0] == "eq":
-                        if k[1] == "Eq" and any(o[0] == "c" and o[1] == 0 for o in (k[2], k[3])) and not any("len" in repr(conn.expand_all(interned, o)) for o in (k[2], k[3])):
-                            tests["zero"] = (c[1] == 1)
-                        if k[1] == "Lt" and k[2][0] == "c" and k[2][1] == 1 and "len" not in repr(conn.expand_all(interned, k[3])):
-                            tests["gt1"] = (c[1] == 1)
-                for t in ("zero", "gt1"):
-                    if not isok and tests[t] is True:
-                        sig[t]["err_true"] = True
-                    if isok:
-                        sig[t]["ok_n"] += 1
-                        if tests[t] is not False:
-                            sig[t]["ok_false"] = False
-            got = {t for t in sig if sig[t]["err_true"] and sig[t]["ok_false"] and sig[t]["ok_n"] > 0}
             key = "%s::%s" % (v, fn)
-            # value restricted by the parameter's type: a fieldless enum whose discriminants are all allowed
-            pty = F.fns[path]["locals"][1] if F.fns[path]["argc"] >= 1 else ""
-            if want == "gt1" and pty in F.adts and F.adts[pty]["kind"] == "enum" and all(x.get("discr", 9) <= 1 and not x["fields"] for x in F.adts[pty]["variants"]):
-                got = got | {"gt1"}
+            if path not in F.fns:
+                r2.violation(key, "constructor %s not found" % path)
+                continue
+            fobj = F.fns[path]
+            pty = fobj["locals"][1] if fobj["argc"] >= 1 else ""
+            if fn == "new" and pty in F.adts and F.adts[pty]["kind"] == "enum" and all(not x["fields"] for x in F.adts[pty]["variants"]):
+                # value restricted by the parameter's type: a fieldless enum - every discriminant must be an allowed value
+                badd = [x["name"] for x in F.adts[pty]["variants"] if not allowed(x.get("discr", 99))]
+                if badd:
+                    r2.violation(key, "%s takes %s whose variants %s are values the specification forbids" % (path, pty, badd))
+                else:
+                    r2.ok(key, "typed parameter %s" % pty.split("::")[-1])
+                continue
+            verdicts = {}
+            for x in probes:
+                if fn == "new":
+                    def setup(ex, st, fr, x=x):
+                        st.heap[(fr.root(1), ())] = ("c", x, pty)
+                else:
+                    bs = vbi_bytes(x) if pt == "vbi" else list(x.to_bytes(WIDTH[pt], "big"))
+                    an = fobj.get("names", {}).get("1", "arg1")
+
+                    def setup(ex, st, fr, bs=bs, an=an):
+                        st.heap[(("arg", an), ())] = ("arr", tuple(("c", b_, "u8") for b_ in bs))
+                verdicts[x] = evaluate(path, setup)
+            if all(vd in ({"Ok"}, {"Err"}) for vd in verdicts.values()):
+                n_conc += 1
+                wrong = [(x, sorted(vd)[0]) for x, vd in sorted(verdicts.items()) if (vd == {"Ok"}) != allowed(x)]
+                if wrong:
+                    x, got_ = wrong[0]
+                    r2.violation(key, "%s(%s%d) is %s; the specification %s this value of %s" % (
+                        path, "bytes of " if fn == "parse" else "", x, "accepted" if got_ == "Ok" else "rejected",
+                        "forbids" if got_ == "Ok" else "allows", v), site="%s:%s" % (fobj["file"], fobj["line"]))
+                else:
+                    r2.ok(key, {"evaluated_on": probes})
+                continue
+            # not decided concretely (an idiom the interpreter does not fold): the decision atoms of the paths
+            n_atoms += 1
+            has_ok, got = atoms_verdict(path)
             if not has_ok:
                 r2.violation(key, "%s has no accepting path" % path)
             elif want is None and got:
                 r2.violation(key, "%s rejects values (%s) the specification allows" % (path, sorted(got)))
             elif want is not None and want not in got:
-                r2.violation(key, "%s does not reject the forbidden values (%s) of %s on every accepting path" % (path, want, v))
+                und = [x for x, vd in sorted(verdicts.items()) if vd not in ({"Ok"}, {"Err"})]
+                r2.violation(key, "%s does not reject the forbidden values (%s) of %s on every accepting path (not decided on concrete inputs %s either)" % (path, want, v, und[:4]))
             else:
                 r2.ok(key, sorted(got))
+    run.cov_extra["value_constructors_evaluated_concretely"] = n_conc
+    run.cov_extra["value_constructors_decided_by_path_atoms"] = n_atoms
 
     # ------------------------------------------------------------------ R3
     r3 = run.rule("C18-R3", "each location's validator is applied (and its error propagated) by both the builder and the parser", floor=14 * 2)
